@@ -193,6 +193,8 @@ impl MainState {
         // for next command - keep order of replies for this connection.
         while let Ok(msg) = conn_state.receiver.try_recv() {
             conn_state.stream.feed(msg).await.map_err(|e| e.to_string())?;
+            #[cfg(simple_irc_server_verif)]
+            verif::drained(conn_state);
         }
         #[cfg(simple_irc_server_verif)]
         verif::before_flush(conn_state);
